@@ -344,6 +344,7 @@ def run(ctx):
     n_ops = 0
     n_tokens_checked = 0
     samples = []
+    concrete, corr = [], []
     outcomes = {"H": 0, "M": 0, "O": 0, "register_ok": 0, "register_refused": 0, "unregister_hit": 0, "unregister_miss": 0,
                 "listings_nonempty": 0, "calls_with_2plus_handlers": 0}
     for line, m, i in zip(lines, model, impl):
@@ -374,7 +375,12 @@ def run(ctx):
             elif a == "u1": outcomes["unregister_hit"] += 1
             elif a == "u0": outcomes["unregister_miss"] += 1
             elif a[:2] in ("l=", "i=") and not a.endswith("-"): outcomes["listings_nonempty"] += 1
+        # The specification oracle (flat registration map) judges the IMPLEMENTATION directly, observation by observation:
+        # a != c is a concrete violation unless it is exactly a known class (F12 / F12b: implementation = proved model and
+        # the proved shape).  Independently, a != b is a broken model/implementation tie.  A line is scanned to its end, so
+        # a harmless-looking first disagreement cannot hide a later observation on which the property is broken.
         spec_in_step = True     # false once model and strict specification have taken different turns (F12b): their states may differ
+        line_concrete = line_corr = False
         for idx, (o, a, b, c) in enumerate(zip(ops, it, mt, st)):
             n_tokens_checked += 1
             if a[:2] == "d=":
@@ -382,31 +388,39 @@ def run(ctx):
                 if "~" in o: outcomes["dispatch_reentrant"] = outcomes.get("dispatch_reentrant", 0) + 1
             if b[:2] == "z=" and c[:2] == "z=" and sorted(b[2:].split(",")) == sorted(c[2:].split(",")):
                 c = b           # the specification fixes which callbacks run, not their order
+            if a[:2] == "z=" and c[:2] == "z=" and sorted(a[2:].split(",")) == sorted(c[2:].split(",")) and a != b:
+                c = a
             if not spec_in_step:
                 c = b
             if a == b == c:
                 continue
             prefix = " ".join(ops[:idx + 1])
             rp = {"line": line, "op_index": idx, "op": o, "impl": a, "model": b, "spec": c, "impl_line": i, "model_line": m}
-            if a == b:
-                # implementation = model, both differ from the specification: must be a known finding
-                if f12_shape(a, c) and "F12" in known:
+            if a != c:
+                if a == b and f12_shape(a, c) and "F12" in known:
                     rep.known(known["F12"], {"history": prefix[-160:], "impl": a, "spec": c})
-                elif o[:2] == "d:" and "r~" in o and "F12b" in known:
+                elif a == b and o[:2] == "d:" and "r~" in o and "F12b" in known:
                     # C20_dispatch_strict_partial: only a non-fallback registration from inside a callback can do this
                     rep.known(known["F12b"], {"history": prefix[-200:], "impl": a, "spec": c})
                     spec_in_step = False
-                else:
-                    rep.violation("after `%s`: code and model answer %s, the specification demands %s" % (prefix[-300:], a, c), rp)
-                continue
-            # implementation != model: is the implementation's behaviour a violation of the property here?
-            if a != c:
-                rep.violation("after `%s`: implementation answers %s, specification demands %s (model: %s)" % (prefix[-300:], a, c, b), rp)
-            else:
-                rp["names"] = "correspondence objtree_h vs ObjTree.{ObjTree,Dispatch} (%s)" % o.split(":")[0]
-                rep.violation("after `%s`: implementation answers %s but the model says %s (specification: %s)" % (prefix[-300:], a, b, c), rp,
-                              found_input=False)
-            break
+                elif not line_concrete:
+                    line_concrete = True
+                    what = "after `%s`: implementation answers %s, specification demands %s (model: %s)" % (prefix[-300:], a, c, b)
+                    if a[:2] in ("c=", "d=") and c[:2] == a[:2] and a[2:].split(":")[0] != c[2:].split(":")[0]:
+                        what += " — handlers offered %s, the registrations in force demand %s (exact handler, then fallbacks of shorter ancestors)" % (
+                            a[2:].split(":")[0], c[2:].split(":")[0])
+                    concrete.append((what, rp))
+            if a != b and not line_corr and not line_concrete:
+                line_corr = True
+                rp2 = dict(rp); rp2["names"] = "correspondence objtree_h vs ObjTree.{ObjTree,Dispatch} (%s)" % o.split(":")[0]
+                corr.append(("after `%s`: implementation answers %s but the model says %s (specification: %s)" % (prefix[-300:], a, b, c), rp2))
+    # concrete failing inputs first, so that they are among the reported ones
+    for what, rp in concrete:
+        rep.violation(what, rp)
+    concrete_lines = set(rp["line"] for _, rp in concrete)
+    for what, rp in corr:
+        if rp["line"] not in concrete_lines:
+            rep.violation(what, rp, found_input=False)
     rep.coverage.update({
         "evaluations": len(lines), "operations": n_ops, "distinct_nontrivial": len(nontrivial),
         "rule": "every history of <= %d register/register-fallback/unregister operations over a %d-path universe (internal tree API) and of <= 2 "
